@@ -114,14 +114,14 @@ fn scenario(name: &str, bound: usize, threads: Vec<Vec<Op>>) -> Scenario {
 
 fn scenarios(ctx: &Ctx) -> Vec<Scenario> {
     let q = ctx.quick();
-    let b2 = if q { 2 } else { 3 };
+    let b2 = if q { 3 } else { 4 };
     let mut v = vec![
         scenario("2w-same-page", b2, vec![vec![Op::W(7), Op::W(7)], vec![Op::W(7), Op::W(7)]]),
         scenario("w-r-same-page", b2, vec![vec![Op::W(7), Op::R(7)], vec![Op::R(7), Op::W(7)]]),
         scenario("2w-two-pages", b2, vec![vec![Op::W(7), Op::W(8)], vec![Op::W(8), Op::W(7)]]),
         scenario("intent-locks", b2, vec![vec![Op::IxW(7), Op::IsR(7)], vec![Op::IsR(7), Op::IxW(7)]]),
         scenario("multi-vs-multi", b2, vec![vec![Op::Multi(7, 8)], vec![Op::Multi(8, 7), Op::W(7)]]),
-        scenario("3t-w-w-r", if q { 1 } else { 2 }, vec![vec![Op::W(7)], vec![Op::W(7)], vec![Op::R(7), Op::W(7)]]),
+        scenario("3t-w-w-r", if q { 2 } else { 3 }, vec![vec![Op::W(7)], vec![Op::W(7)], vec![Op::R(7), Op::W(7)]]),
     ];
     if !q {
         v.push(scenario("3t-2w-each", 2, vec![vec![Op::W(7), Op::W(7)], vec![Op::W(7), Op::W(7)], vec![Op::W(7), Op::R(7)]]));
@@ -135,7 +135,7 @@ impl Check for C36 {
         let mut s = Spec::new(
             "C36",
             "model_checking",
-            "every schedule (vector of choices at the scheduling points = every parking_lot lock operation and every atomic of page_locks.rs) with at most c preemptions, for each scenario of 2-3 threads x 1-2 lock/unlock operations on 1-2 pages; c=2 (quick) / 3 (thorough) for 2 threads, 1/2 for 3 threads. A state = one complete schedule; distinct by construction (distinct choice vectors); transitions = scheduling decisions.",
+            "every schedule (vector of choices at the scheduling points = every parking_lot lock operation and every atomic of page_locks.rs) with at most c preemptions, for each scenario of 2-3 threads x 1-2 lock/unlock operations on 1-2 pages; c=3 (quick) / 4 (thorough) for 2 threads, 2/3 for 3 threads. A state = one complete schedule; distinct by construction (distinct choice vectors); transitions = scheduling decisions.",
         );
         s.assumptions = &["sequentially consistent atomics (shuttle); parking_lot replaced by a shim mapping each operation to one shuttle operation; RwLock fairness is shuttle's"];
         s.cap_quick_s = 90;
